@@ -3,8 +3,7 @@
 //! Same algorithm as `JvmsRaw.Walk` in /verif/lean/FeatherModel/Spec/JvmsRaw.lean (the two are compared by the op
 //! `jvms-frame`): it follows constant-pool slots, counts and `attribute_length`s, checks for every predefined attribute
 //! that its body has the JVMS shape and exactly `attribute_length` bytes, and accepts iff the input is consumed exactly.
-//! `known = true` additionally refuses the regions of the known defects of raw_class_file (long/double pool entries,
-//! NestMembers, MethodParameters).
+//! `known = true` additionally refuses the region of the open defect of raw_class_file (long/double pool entries).
 
 type P<'a> = Option<&'a [u8]>;
 
@@ -107,12 +106,12 @@ fn attr_info<'a>(known: bool, pool: &Utf8s<'_>, fuel: usize, b: &'a [u8]) -> P<'
 			Some(tbl1(&|x| tbl2(&|y| annotation(len, y), x), body)),
 		b"AnnotationDefault" => Some(element_value(len + 1, body)),
 		b"BootstrapMethods" => Some(tbl2(&|x| tbl2(&|y| skip(2, y), skip(2, x)?), body)),
-		b"MethodParameters" => Some(if known { None } else { tbl1(&|x| skip(4, x), body) }),
+		b"MethodParameters" => Some(tbl1(&|x| skip(4, x), body)),
 		b"Module" => Some(module_body(body)),
 		b"ModulePackages" => Some(tbl2(&|x| skip(2, x), body)),
 		b"ModuleMainClass" => Some(skip(2, body)),
 		b"NestHost" => Some(skip(2, body)),
-		b"NestMembers" => Some(if known { None } else { tbl2(&|x| skip(2, x), body) }),
+		b"NestMembers" => Some(tbl2(&|x| skip(2, x), body)),
 		b"Record" => Some(tbl2(&|x| attributes(skip(4, x)?), body)),
 		b"PermittedSubclasses" => Some(tbl2(&|x| skip(2, x), body)),
 		_ => None,
